@@ -2,7 +2,7 @@
    Only statements closed by [exact] and their assumptions; the model is in Herc.Plumbing.LineCount / Script. *)
 From Coq Require Import List ZArith Bool Arith.
 From Herc Require Import Plumbing.LineCount Plumbing.LineCountProofs Plumbing.Script Plumbing.ScriptProofs
-  Plumbing.FileDiffProofs.
+  Plumbing.StripLines Plumbing.FileDiffProofs.
 Import ListNotations.
 
 (* -- 1. the line counter used when a file is first seen agrees with the line splitting of the diff, for every
@@ -73,47 +73,25 @@ Theorem C11_line_stats_conserve : forall (old new : list (list Z)) (ds : list (o
 Proof. exact (fun old new ds => line_stats_conserve list_eqb old new ds list_eqb_spec). Qed.
 Print Assumptions C11_line_stats_conserve.
 
-(* -- 4. whitespace-ignore: stripWhitespace removes every 0x20 byte; the number of lines the diff sees drops by
-      one exactly when the last line is non-empty and all spaces, and is unchanged otherwise *)
-Theorem C11_strip_exact : forall b : list Z,
-  length (split_lines (strip_whitespace b)) + (if last_blank b then 1 else 0) = length (split_lines b).
-Proof. exact strip_loc_exact. Qed.
-Print Assumptions C11_strip_exact.
-
+(* -- 4. whitespace-ignore.  stripWhitespace removes every 0x20 byte and (since the repair of finding F9, commit
+      3944bd2) keeps a last line made of spaces only as one space.  The diff and the line counter agree for EVERY
+      text blob in EVERY configuration. *)
 Theorem C11_counts_agree : forall (ws : bool) (b : list Z), textb b = true ->
-  (ws = false \/ last_blank b = false) -> count_lines b = Lines (diff_loc ws b).
+  count_lines b = Lines (diff_loc ws b).
 Proof. exact diff_loc_agrees. Qed.
 Print Assumptions C11_counts_agree.
 
-(* the clause "old and new line counts agree with the line counter" is FALSE with WhitespaceIgnore (finding F9) *)
-Theorem C11_strip_refuted :
-  exists b : list Z, textb b = true /\ count_lines b = Lines 2 /\ diff_loc true b = 1 /\ diff_loc false b = 2.
-Proof. exact strip_refuted. Qed.
-Print Assumptions C11_strip_refuted.
-
-Theorem C11_strip_always_disagrees : forall b : list Z, textb b = true -> last_blank b = true ->
-  count_lines b = Lines (S (diff_loc true b)).
-Proof. exact diff_loc_disagrees. Qed.
-Print Assumptions C11_strip_always_disagrees.
-
-(* -- 5. the whole chain for one modification of a tracked file (invariant: the file has CountLines(blob) lines) *)
+(* -- 5. the whole chain for one modification of a tracked file (invariant: the file has CountLines(blob) lines):
+      for every configuration and every script the validator accepts, the consumer accepts, and the invariant is
+      re-established for the next commit *)
 Theorem C11_modification_chain : forall (V : Type) (v : V) (ws : bool) (a b : list Z) (ds : list (op * nat)) (file : list V),
   textb a = true -> textb b = true ->
-  (ws = false \/ (last_blank a = false /\ last_blank b = false)) ->
   file_diff_ok ws a b ds = true ->
   count_lines a = Lines (length file) ->
   exists file', handle_modification v (diff_loc ws a) (diff_loc ws b) file ds = HmOk file'
                 /\ count_lines b = Lines (length file') /\ file' = relabel v ds file.
 Proof. exact (fun V => @modification_chain V). Qed.
 Print Assumptions C11_modification_chain.
-
-Theorem C11_modification_chain_refuted :
-  exists (a b : list Z) (ds : list (op * nat)) (file : list bool),
-    textb a = true /\ textb b = true /\ file_diff_ok true a b ds = true /\
-    count_lines a = Lines (length file) /\
-    handle_modification true (diff_loc true a) (diff_loc true b) file ds = HmErr IntegritySrc.
-Proof. exact modification_chain_refuted. Qed.
-Print Assumptions C11_modification_chain_refuted.
 
 (* -- 6. the property-level oracle applied to the implementation's outputs: lines = the lines of the unstripped
       blobs (their number is CountLines), "identical" = equal after removing the spaces when WhitespaceIgnore is
@@ -127,39 +105,66 @@ Theorem C11_spec_chain : forall (V : Type) (v : V) (ws : bool) (a b : list Z) (d
 Proof. exact (fun V => @spec_chain V). Qed.
 Print Assumptions C11_spec_chain.
 
-(* outside the class of F9 the oracle coincides with validating against what FileDiff feeds into the engine *)
+(* both oracles coincide on every pair of blobs: stripWhitespace works line by line *)
+Theorem C11_split_lines_strip : forall b : list Z,
+  split_lines (strip_whitespace b) = map strip_whitespace (split_lines b).
+Proof. exact split_lines_strip_whitespace. Qed.
+Print Assumptions C11_split_lines_strip.
+
 Theorem C11_spec_ok_file_diff_ok : forall (ws : bool) (a b : list Z) (ds : list (op * nat)),
-  (ws = false \/ (last_blank a = false /\ last_blank b = false)) ->
   spec_ok ws a b ds = file_diff_ok ws a b ds.
 Proof. exact spec_ok_file_diff_ok. Qed.
 Print Assumptions C11_spec_ok_file_diff_ok.
 
-Theorem C11_split_lines_strip : forall b : list Z,
-  split_lines (strip_whitespace b) = filter nonempty (map strip_whitespace (split_lines b))
-  /\ (last_blank b = false -> split_lines (strip_whitespace b) = map strip_whitespace (split_lines b)).
+(* -- 7. line identifiers after the shift of commit 742df3d (repair of finding F15): still distinct, never a
+      UTF-16 surrogate, valid code points below 1 110 016 distinct lines *)
+Theorem C11_shift_id : forall i j : Z,
+  (shift_id i = shift_id j -> i = j)
+  /\ ~ (55296 <= shift_id i <= 57343)%Z
+  /\ (0 <= i < 1112064 - 2048 -> 0 <= shift_id i <= 1114111)%Z.
+Proof. exact shift_id_spec. Qed.
+Print Assumptions C11_shift_id.
+
+(* -- 8. the repaired defect F9, as it was: removing every space changed the number of lines exactly when the last
+      line was non-empty and all spaces; the clause "counts agree with the line counter" was false, the chain broke *)
+Theorem C11_strip_exact_before_fix : forall b : list Z,
+  length (split_lines (remove_spaces b)) + (if last_blank b then 1 else 0) = length (split_lines b).
+Proof. exact strip_loc_exact. Qed.
+Print Assumptions C11_strip_exact_before_fix.
+
+Theorem C11_counts_agree_before_fix : forall (ws : bool) (b : list Z), textb b = true ->
+  (ws = false \/ last_blank b = false) -> count_lines b = Lines (diff_loc_before_fix ws b).
+Proof. exact diff_loc_agrees_before_fix. Qed.
+Print Assumptions C11_counts_agree_before_fix.
+
+Theorem C11_strip_refuted_before_fix :
+  exists b : list Z, textb b = true /\ count_lines b = Lines 2 /\ diff_loc_before_fix true b = 1
+                     /\ diff_loc_before_fix false b = 2.
+Proof. exact strip_refuted_before_fix. Qed.
+Print Assumptions C11_strip_refuted_before_fix.
+
+Theorem C11_strip_always_disagreed_before_fix : forall b : list Z, textb b = true -> last_blank b = true ->
+  count_lines b = Lines (S (diff_loc_before_fix true b)).
+Proof. exact diff_loc_disagrees_before_fix. Qed.
+Print Assumptions C11_strip_always_disagreed_before_fix.
+
+Theorem C11_modification_chain_refuted_before_fix :
+  exists (a b : list Z) (ds : list (op * nat)) (file : list bool),
+    textb a = true /\ textb b = true /\ file_diff_ok_before_fix true a b ds = true /\
+    count_lines a = Lines (length file) /\
+    handle_modification true (diff_loc_before_fix true a) (diff_loc_before_fix true b) file ds = HmErr IntegritySrc.
+Proof. exact modification_chain_refuted_before_fix. Qed.
+Print Assumptions C11_modification_chain_refuted_before_fix.
+
+Theorem C11_split_lines_strip_before_fix : forall b : list Z,
+  split_lines (remove_spaces b) = filter nonempty (map remove_spaces (split_lines b))
+  /\ (last_blank b = false -> split_lines (remove_spaces b) = map remove_spaces (split_lines b)).
 Proof.
   exact (fun b => conj (eq_trans (split_lines_spec _) (eq_trans (lines_of_strip b)
-                        (f_equal (fun l => filter nonempty (map strip_whitespace l)) (eq_sym (split_lines_spec b)))))
+                        (f_equal (fun l => filter nonempty (map remove_spaces l)) (eq_sym (split_lines_spec b)))))
                        (split_lines_strip b)).
 Qed.
-Print Assumptions C11_split_lines_strip.
-
-(* -- 7. the candidate repair of F9 (keep a last line of spaces as one space) makes the counts agree on EVERY
-      text blob and restores the chain with WhitespaceIgnore *)
-Theorem C11_strip_fixed_agrees : forall b : list Z, textb b = true ->
-  count_lines b = Lines (length (split_lines (strip_whitespace_fixed b))).
-Proof. exact strip_fixed_agrees. Qed.
-Print Assumptions C11_strip_fixed_agrees.
-
-Theorem C11_modification_chain_fixed : forall (V : Type) (v : V) (a b : list Z) (ds : list (op * nat)) (file : list V),
-  textb a = true -> textb b = true ->
-  lines_script_ok (split_lines (strip_whitespace_fixed a)) (split_lines (strip_whitespace_fixed b)) ds = true ->
-  count_lines a = Lines (length file) ->
-  exists file', handle_modification v (length (split_lines (strip_whitespace_fixed a)))
-                  (length (split_lines (strip_whitespace_fixed b))) file ds = HmOk file'
-                /\ count_lines b = Lines (length file').
-Proof. exact (fun V => @modification_chain_fixed V). Qed.
-Print Assumptions C11_modification_chain_fixed.
+Print Assumptions C11_split_lines_strip_before_fix.
 
 (* -- non-vacuity: concrete blobs and scripts that satisfy the hypotheses *)
 Definition ex_a : list Z := [97; 13; 10; 98; 10; 255; 254; 10; 99]%Z.        (* "a\r\nb\n\xff\xfe\nc"  *)
@@ -191,8 +196,12 @@ Example C11_ex_spec : spec_ok false ex_a ex_b ex_ds = true /\ spec_ok true ex_a 
   /\ spec_ok true [97; 32; 10; 98; 10]%Z [32; 97; 10; 99; 10]%Z [(Equal, 1); (Delete, 1); (Insert, 1)] = true
   /\ spec_ok false [97; 32; 10; 98; 10]%Z [32; 97; 10; 99; 10]%Z [(Equal, 1); (Delete, 1); (Insert, 1)] = false
   /\ spec_ok true f9_witness [195; 169; 10]%Z [(Equal, 1)] = false
-  /\ strip_whitespace_fixed f9_witness = [195; 169; 10; 32]%Z.
+  /\ spec_ok true f9_witness [195; 169; 10]%Z [(Equal, 1); (Delete, 1)] = true
+  /\ file_diff_ok true f9_witness [195; 169; 10]%Z [(Equal, 1); (Delete, 1)] = true
+  /\ strip_whitespace f9_witness = [195; 169; 10; 32]%Z /\ diff_loc true f9_witness = 2.
 Proof. vm_compute. repeat split; reflexivity. Qed.
 Example C11_ex_strip : last_blank f9_witness = true /\ last_blank ex_a = false
-  /\ strip_whitespace [32; 97; 32; 9; 10; 32]%Z = [97; 9; 10]%Z.
+  /\ remove_spaces [32; 97; 32; 9; 10; 32]%Z = [97; 9; 10]%Z
+  /\ strip_whitespace [32; 97; 32; 9; 10; 32]%Z = [97; 9; 10; 32]%Z /\ strip_whitespace [32; 32]%Z = [32]%Z
+  /\ strip_whitespace [97; 32]%Z = [97]%Z /\ shift_id 55295 = 55295%Z /\ shift_id 55296 = 57344%Z.
 Proof. vm_compute. repeat split; reflexivity. Qed.
